@@ -514,13 +514,22 @@ def main():
         total_pos += npos
         gc.collect()
     chk.cov["fault_positions"] = total_pos
+    # a connection shared by threads (RpycServe's setting): the peer vanishes at an arbitrary moment
+    from harness.drivers import serve_common as svc
+
+    def on_bad(bad, rep):
+        for key, msg in bad:
+            chk.violation("shared:" + key, "C11 [several threads on one connection] " + msg, rep)
+    for cfgname in (("2", "2bg") if not chk.thorough else ("2", "2bg", "3", "3bg", "1bg")):
+        svc.explore_eof(chk, cfgname, on_bad, 60 if not chk.thorough else 600)
     for i in range(0, len(traces), 1500):
         validate(chk, traces[i:i + 1500], "fault runs %d.." % i)
     chk.assumptions += [
         "faults are socket-level: recv raising ECONNRESET or returning end-of-stream, send raising EPIPE, at one transport "
         "call per run (fragmented runs put them inside headers and bodies); poll() itself is not made to fail",
         "each side is single-threaded and keeps serving while idle (as a server does); obligations are checked when a public "
-        "call returns or raises",
+        "call returns or raises; in addition 2-3 threads (and a background serving thread) share one connection whose stream "
+        "ends at an arbitrary scheduling point (virtual time, requests without timeout)",
         "a failure while *sending a reply* from a bare serve() may leave `closed` false until the next serve (DESIGN.md, C11)"]
     return chk.finish(rule="evaluations = complete runs of a workload with one injected fault, judged at every public-call "
                       "boundary; distinct = distinct (workload, fragmentation, timeout, close order, fault position, fault kind)")
